@@ -258,6 +258,15 @@ def run(ctx):
         rep.count("programs", json.dumps(j))
         if r != "raised":
             rep.fail("pred", {"stream": "programs", "case": j}, {"why": "an ill-connected new parent of a child (fresh or already elaborated) was exported", "result": r})
+    r6 = [{"kind": k, "how": hw} for k, hows6 in (("wrap_order", ["never", "elaborate", "to_proto"]), ("after_failed", ["never", "failed"]), ("same_name", ["never", "other_first"])) for hw in hows6]
+    r6res = common.pmap_fresh(program_round6, r6)
+    for j, r in zip(r6, r6res):
+        rep.count("programs", json.dumps(j))
+        ref = next(r0 for j0, r0 in zip(r6, r6res) if j0["kind"] == j["kind"] and j0["how"] == "never")
+        if "raised" in ref:
+            rep.fail("corr", {"stream": "programs", "case": j}, {"why": "the history-free run of the program does not export", "result": ref})
+        elif r != ref:
+            rep.fail("pred", {"stream": "programs", "case": j}, {"why": "what is exported depends on what was elaborated (or failed to elaborate) before in the process", "with_history": r, "without": ref})
     rep.extra["designs"] = len(cases_d)
     rep.extra["histories"] = nh
     if jobs:
@@ -354,10 +363,96 @@ def program_bad_new_parent(job):
         return "raised"
 
 
+
+def program_round6(job):
+    """Three more histories, each against its history-free run (how = "never"):
+    wrap_order   — Wrapper / Series over a unit with two bundle ports, built after the unit was elaborated / exported;
+    after_failed — a healthy parent (a no-connect and a port reference on the bundle port of a shared child) after another parent of
+                   that child failed in a pass later than the bundle flattening;
+    same_name    — a new parent of X after an unrelated module with X's qualified name and another bundle shape was elaborated."""
+    from hdl21.generators import Wrapper, Series
+
+    kind, how = job["kind"], job["how"]
+    B1 = h.Bundle(name="B1")
+    B1.x = h.Signal()
+    B1.y = h.Signal(width=2)
+    B2 = h.Bundle(name="B2")
+    B2.z = h.Signal()
+    E = h.ExternalModule(name="E9r6", port_list=[h.Port(name="q"), h.Port(name="r", width=2)], paramtype=dict)
+    R = h.R(r=1)
+    out = {}
+    try:
+        if kind == "wrap_order":
+            U = h.Module(name="U")
+            U.a, U.b = h.Ports(2)
+            U.b1 = B1(port=True)
+            U.b2 = B2(port=True)
+            U.e = E({})(q=U.b1.x, r=U.b1.y)
+            U.r1 = R(p=U.a, n=U.b2.z)
+            U.r2 = R(p=U.b, n=U.b2.z)
+            if how == "elaborate":
+                h.elaborate(U)
+            elif how == "to_proto":
+                h.to_proto(U)
+            for nm, m in (("wrapper", Wrapper(U)), ("series", Series(unit=U, nser=2, conns=("a", "b")))):
+                pkg = h.to_proto(m)
+                out[nm] = {"digest": digest(pkg), "ports": [p.signal for p in pkg.modules[-1].ports]}
+        elif kind == "after_failed":
+            Leaf = h.Module(name="Leaf")
+            Leaf.s = h.Port()
+            Leaf.b = B1(port=True)
+            Leaf.e = E({})(q=Leaf.b.x, r=Leaf.b.y)
+            Leaf.r = R(p=Leaf.s, n=Leaf.b.x)
+            if how == "failed":
+                Bad = h.Module(name="Bad")
+                Bad.s = h.Signal()
+                Bad.w3 = h.Signal(width=3)
+                Bad.bb = B1()
+                Bad.l = Leaf(s=Bad.s, b=Bad.bb)
+                Bad.arr = h.InstanceArray(R, 2)(p=Bad.w3, n=Bad.s)
+                try:
+                    h.to_proto(Bad)
+                    out["bad"] = "exported"
+                except Exception as ex:  # noqa
+                    out["bad"] = "raised"
+            Good = h.Module(name="Good")
+            Good.s = h.Signal()
+            Good.l1 = Leaf(s=Good.s, b=h.NoConn())
+            Good.l2 = Leaf(s=Good.s)
+            Good.l3 = Leaf(s=Good.s, b=Good.l2.b)
+            out["good"] = digest(h.to_proto(Good))
+        elif kind == "same_name":
+            def factory(shape):
+                X = h.Module(name="X")
+                X.s = h.Port()
+                X.c = shape(port=True)
+                if shape is B1:
+                    X.e = E({})(q=X.c.x, r=X.c.y)
+                else:
+                    X.r = R(p=X.s, n=X.c.z)
+                return X
+            X = factory(B1)
+            if how != "never":
+                h.elaborate(X)
+                h.elaborate(factory(B2))
+            Parent = h.Module(name="Parent")
+            Parent.s = h.Signal()
+            Parent.bb = B1()
+            Parent.x = X(s=Parent.s, c=Parent.bb)
+            out["parent"] = digest(h.to_proto(Parent))
+    except Exception as ex:  # noqa
+        out["raised"] = common.errstr(ex)[-200:]
+    out.pop("bad", None)
+    return out
+
 def replay(ctx, rp):
     c = rp["case"]["case"]
     if rp["case"].get("stream") == "programs":
-        if "early" in c:
+        if "kind" in c:
+            a, b = common.pmap_fresh(program_round6, [{"kind": c["kind"], "how": "never"}, c])
+            print(json.dumps({"never": a, c["how"]: b}))
+            bad = a != b
+        elif "early" in c:
             a, b = common.pmap_fresh(program_early_export, ["never", c["early"]])
             print(json.dumps({"never": a, c["early"]: b}))
             bad = a[c["part"]] != b[c["part"]]
